@@ -85,6 +85,8 @@ class Interp:
         _counter[0] += 1
         self.root_dir = os.path.join(f'{SCRATCH}-{os.getpid()}',
                                      str(_counter[0]))
+        if self.cfg.get('odd_root'):    # glob characters in the root's name
+            self.root_dir = os.path.join(self.root_dir, 'ro[o]t x*')
         os.makedirs(self.root_dir)
         for rel, kind in self.cfg['tree']:
             p = os.path.join(self.root_dir, rel)
@@ -450,10 +452,13 @@ class Interp:
 
     def cleanup(self):
         shutil.rmtree(self.root_dir, ignore_errors=True)
-        try:
-            os.rmdir(os.path.dirname(self.root_dir))
-        except OSError:
-            pass
+        d = os.path.dirname(self.root_dir)
+        for _ in range(2 if self.cfg.get('odd_root') else 1):
+            try:
+                os.rmdir(d)
+            except OSError:
+                break
+            d = os.path.dirname(d)
 
 
 def execute(scenario, prop, tolerate=frozenset()):
@@ -532,8 +537,10 @@ def generate(prop, run_seed, tier='quick', tolerate=frozenset()):
             path = crng.choice(dirs)
         elif files and r < .93 and (dirs or r < .3):
             path = crng.choice(files)           # rejected with ValueError
-        else:
+        elif r < .965:
             path = crng.choice(['missing', 'sub/missing', 'a/none'])
+        else:
+            path = crng.choice(['', '.'])       # the root itself
         exts = []
         if crng.random() < .35:
             exts = crng.sample(['.txt', '.png', '.d', '', '.TXT', '.gz',
@@ -557,6 +564,7 @@ def generate(prop, run_seed, tier='quick', tolerate=frozenset()):
     cfg = {'policy': crng.choice(['fifo', 'lifo', 'reshuffle', 'rot']),
            'tree': tree, 'rules': rules, 'pre': pre,
            'wrong_ctor_root': crng.random() < .15,
+           'odd_root': crng.random() < .08,
            'falsy_handles': crng.choice([None, None, None, 'len', 'bool']),
            'ctor': {'nest': crng.choice([None, True, False]),
                     'trim': crng.choice([None, True, False])}}
